@@ -123,6 +123,12 @@ def supplied_note(c, source):
     """The note a callable hands over for cell content c: a fresh Note, or a copy taken from a
     cell of another pattern (clone() / copy.deepcopy - the usual ways of copying between patterns);
     that other pattern may itself sit in another project."""
+    n = _supplied_note(c, source)
+    _SUPPLIED.append(n)
+    return n
+
+
+def _supplied_note(c, source):
     if not source or source == "fresh":
         return mk_note(c)
     if source == "shared":
@@ -146,6 +152,24 @@ def supplied_note(c, source):
 
 NOTE_SOURCES = ["fresh", "fresh", "clone_of_foreign", "clone_of_foreign_attached", "deepcopy_of_foreign", "deepcopy_of_foreign_attached", "shared"]
 _SHARED = {}
+_SUPPLIED = []
+
+
+def check_supplied_belong(pattern, where):
+    """The callable may have kept the notes it handed over.  Those of them that the completed edit installed
+    (found in the pattern by identity afterwards) belonged to the pattern from the moment the edit returned -
+    also before anyone looked at the pattern again."""
+    pre = {id(n): n.pattern for n in _SUPPLIED}
+    if not pre:
+        return
+    for ln, line in enumerate(pattern.data):
+        for tr, n in enumerate(line):
+            if id(n) in pre and pre[id(n)] is not pattern:
+                raise PropertyViolation(
+                    "C19.ownership.before_first_read",
+                    "%s: the supplied note installed at (line %d, track %d) had pattern %s when the edit returned (before the pattern was read again)"
+                    % (where, ln, tr, "None" if pre[id(n)] is None else "another object"),
+                )
 
 
 def cells_of(pattern):
@@ -154,7 +178,12 @@ def cells_of(pattern):
 
 def apply_edit(pattern, edit, fail_at, before=None):
     _SHARED.clear()
-    return _apply_edit(pattern, edit, fail_at, before)
+    del _SUPPLIED[:]
+    out = _apply_edit(pattern, edit, fail_at, before)
+    # reached only when the edit completed
+    check_supplied_belong(pattern, "after %s" % edit["kind"])
+    del _SUPPLIED[:]
+    return out
 
 
 def _apply_edit(pattern, edit, fail_at, before=None):
